@@ -166,6 +166,33 @@ fn run_convert(log: &mut Log, c: &Value, src: &str) {
     let func = c["fn"].as_str().unwrap();
     let tbase = c["tbase"].as_u64().unwrap_or(base);
     let tprec = c["tprec"].as_u64().unwrap_or(0) as usize;
+    // base pairs outside the general base list: a base and its power where the root is not 2 (3 <-> 9, 6 <-> 36, 3 -> 27)
+    macro_rules! pair {
+        ($B:literal, $T:literal) => {
+            dispatch_mode!(mode, R => {
+                match guarded(|| dec_f::<R, $B>(&c["x"])) {
+                    Err(m) => (json!({"k": "panic", "msg": format!("harness-construct: {}", m)}), c["x"].clone()),
+                    Ok(x) => (match func {
+                        "with_base_and_precision" => conv_out(guarded(|| x.clone().with_base_and_precision::<$T>(tprec))),
+                        _ => conv_out(guarded(|| x.clone().with_base::<$T>())),
+                    }, enc_f(&x)),
+                }
+            })
+        };
+    }
+    let special: Option<(Value, Value)> = match (base, tbase) {
+        (3, 9) => Some(pair!(3, 9)),
+        (9, 3) => Some(pair!(9, 3)),
+        (3, 27) => Some(pair!(3, 27)),
+        (6, 36) => Some(pair!(6, 36)),
+        (36, 6) => Some(pair!(36, 6)),
+        _ => None,
+    };
+    if let Some((out, xobs)) = special {
+        log.ev(json!({"prop": "C08", "op": "convert", "base": base, "mode": mode, "x": xobs, "fn": func, "tbase": tbase,
+            "tprec": tprec, "src": src, "out": out}));
+        return;
+    }
     // the operand is logged as observed after construction (Repr::new strips trailing zero digits)
     let (out, xobs): (Value, Value) = dispatch_mode!(mode, R => {
         dispatch_base!(base, B => {
